@@ -383,8 +383,9 @@ class kwargs_support(wrapper):
         return getargs(self.function)
         
     def wrapped(self, *args, **kwargs):
-        _args = self._args
-        kwargs = {key : value for key, value in kwargs.items() if key in _args}
+        if getargspec(self.function).varkw is None:
+            _args = self._args
+            kwargs = {key : value for key, value in kwargs.items() if key in _args}
         return self.function(*args, **kwargs)
  
 
